@@ -97,7 +97,7 @@ pub fn spec() -> PropSpec<Case> {
     rule: "function level: version sets from a pool of 8 (prerelease and 0.x included) with yanked flags and creation dates (none / before / after / exactly at the cut-off), cut-off on or off, exclusion by name / prefix / other package, already selected versions (incl. one the registry does not list), cached versions, 15 requirements - exhaustively for all sets of <= 2 (thorough 3) versions, sampled beyond; graph level: one root importing 1-4 jsr: requirements (static and dynamic, one version tag) against a generated registry with lockfile seeds, cut-off, exclusions, prefer-cached and a cache image, compared with the left fold of the reference over the import order; non-trivial = the answer differs from 'highest listed version matching the requirement'; distinct = distinct case JSON",
     assumptions: &[
       "deno_semver (version parsing, ordering, VersionReq::matches) is trusted by both sides",
-      "graph level: every requirement text appears once in the root module; static imports resolve in source order, then dynamic ones",
+      "graph level: every requirement text appears once in the root module; static imports resolve in source order, then dynamic ones; a requirement equal to one resolved earlier in the same build (same package and version range, e.g. `1` and `1.x`) is not resolved again but lands on the version selected the first time, so that the package table and the redirects name one version per requirement",
       "the loader answers registry metadata identically for every cache setting",
     ],
     crash_is_violation: false,
@@ -489,6 +489,7 @@ fn graph_level(case: &Case, o: &mut Outcome) -> bool {
   let mut exp_errors: BTreeMap<String, &'static str> = BTreeMap::new();
   let mut exp_redirects: BTreeMap<String, String> = BTreeMap::new();
   let mut nontrivial = false;
+  let mut resolved_in_build: BTreeMap<PackageReq, String> = BTreeMap::new();
   let order: Vec<&(u8, bool)> = case
     .imports
     .iter()
@@ -502,6 +503,17 @@ fn graph_level(case: &Case, o: &mut Outcome) -> bool {
     };
     let spec = format!("jsr:{PKG}@{t}");
     let preq = PackageReq::from_str(&format!("{PKG}@{t}")).unwrap();
+    // a requirement resolves once per build: an equal requirement (same
+    // package, same version range, e.g. `1` and `1.x`) met again lands on
+    // the version selected the first time
+    if let Some(version) = resolved_in_build.get(&preq) {
+      if listed.iter().any(|l| l.version.to_string() == *version) {
+        exp_redirects.insert(spec, format!("{}{PKG}/{version}/mod.ts", registry::REGISTRY));
+      } else {
+        exp_errors.insert(spec, "version-manifest-missing");
+      }
+      continue;
+    }
     let unification = existing.iter().any(|v| preq.version_req.matches(v));
     let cached: Option<Vec<Version>> = if case.prefer_cached && !unification {
       Some(
@@ -525,6 +537,7 @@ fn graph_level(case: &Case, o: &mut Outcome) -> bool {
           nontrivial = true;
         }
         exp_map.insert(preq.clone(), format!("{PKG}@{version}"));
+        resolved_in_build.insert(preq.clone(), version.clone());
         let ver = Version::parse_standard(&version).unwrap();
         if !existing.contains(&ver) {
           existing.push(ver);
